@@ -186,8 +186,19 @@ def run(ck):
                         elif nbt is not None and (nbt == T.app("floordiv", T.sym("N"), T.sym("pb")) or nbt == T.app("trunc", T.sym("N") * T.inv(T.sym("pb"))) or nbt == T.app("floor", T.sym("N") * T.inv(T.sym("pb")))):
                             ck.violation("C07.R6", inst + ":num_batches = ceil(N / pos_batch_size)", fsite, "num_batches is floor(N / pos_batch_size): the last, smaller batch is silently dropped by zip")
                         else:
-                            ck.check(None if nbt is None or nbt.syms() == want.syms() else False, "C07.R6", inst + ":num_batches = ceil(N / pos_batch_size)", fsite,
-                                     "num_batches is %r; expected ceil(N / pos_batch_size)" % (nbt,))
+                            from .. import ints
+
+                            cc = ints.count_compare(nbt, want, {"N", "pb"}) if nbt is not None else None
+                            if cc is not None and cc[0] == "equal":
+                                ck.ok("C07.R6", inst + ":num_batches = ceil(N / pos_batch_size)", fsite, decided="equal to ceil(N / pb) for all N, pb in 1..13")
+                            elif cc is not None:
+                                w_ = cc[1]
+                                ck.violation("C07.R6", inst + ":num_batches = ceil(N / pos_batch_size)", fsite,
+                                             "num_batches is %s = %s for N = %s, pos_batch_size = %s; the data needs ceil(N / pos_batch_size) = %s batches (zip drops the rest)"
+                                             % (str(nbt)[:60], w_["got"], w_["env"].get("N"), w_["env"].get("pb"), w_["want"]), key="C07.R6|num_batches")
+                            else:
+                                ck.check(None if nbt is None or nbt.syms() == want.syms() else False, "C07.R6", inst + ":num_batches = ceil(N / pos_batch_size)", fsite,
+                                         "num_batches is %r; expected ceil(N / pos_batch_size)" % (nbt,))
                         ts = argp(env, 4)
                         ck.check(isinstance(ts, VTens) and ts.term == T.sym("data") and ts.shape == ("N", "nv"), "C07.R3", inst + ":whole data set shuffled", fsite, "the tensor handed to the shuffler is not the training data")
                         nbs_ = num_term(argp(env, 2))
